@@ -933,8 +933,13 @@ def _history(w, r, rec, nevents, want_model, parse_gitlog, snap_of, deadline=Non
         used = True
         write_recipes(w, specs, used, policies)
         rec["log"].append("use-app")
-    rc = bob_event("dev", ["dev", "root"])
-    if rc == 0 and not exempt and parse_valid(specs):
+        changed = True
+    if changed or not rec["events"] or rec["events"][-1]["kind"] != "dev":
+        rc = bob_event("dev", ["dev", "root"])
+    else:
+        rc = rec["events"][-1]["rc"]        # the last event already was a `bob dev` of this recipe
+    untouched_left = any(not any(is_prefix(t, s_["dir"]) for t in touched) for s_ in specs)
+    if rc == 0 and not exempt and parse_valid(specs) and untouched_left:
         converge_check(w, rec, specs, touched, case)
     rec["ledger"] = len(ledger)
 
@@ -1315,6 +1320,16 @@ def history_requests(rec):
 _CACHE = {}
 
 
+def _mandatory_job(job):
+    kind, j = job
+    return run_history(j) if kind == "hist" else direct_git_case(j)
+
+
+def git_jobs(ctx):
+    n = int(os.environ.get("C12_NGIT", 0)) or ctx.scale(96, 4000)
+    return [(os.path.join(ctx.tmp, "g%d" % i), os.path.join(ctx.repo, "pym"), "C12g-%d-%s-%d" % (ctx.seed, ctx.tier, i)) for i in range(n)]
+
+
 FORCED = ["branch-return", "ubc-tag-move:leave", "nested-attic", "clean-src", "collision", "ubc-tag-move:dirty", "branch-return",
           "ubc-tag-move:stay"]
 
@@ -1333,8 +1348,13 @@ def histories(ctx, want_model):
     recs = []
     jobs = [(os.path.join(ctx.tmp, "f%d" % i), pym, "C12-%d-%s-f%d" % (ctx.seed, ctx.tier, i), r.randrange(0, 3), True, None,
              FORCED[i % len(FORCED)]) for i in range(nforced)]
-    for i in range(0, len(jobs), 8):
-        if i > 0 and ctx.time_left() < 90:
+    # the mandatory part in one pool of 16: the first 8 scenarios and the first 8 direct git cases
+    gjobs = [("git", j) for j in git_jobs(ctx)[:8]]
+    out = ctx.parallel(_mandatory_job, [("hist", j) for j in jobs[:8]] + gjobs, workers=16)
+    recs.extend(out[:len(jobs[:8])])
+    _CACHE[("git",) + key] = out[len(jobs[:8]):]
+    for i in range(8, len(jobs), 8):
+        if ctx.time_left() < 90:
             ctx.skip("forced scenarios %d.. not run: time budget" % i)
             break
         recs.extend(ctx.parallel(run_history, jobs[i:i + 8], workers=8))
@@ -1359,7 +1379,9 @@ def oracle(ctx):
     if shutil.which("git") is None:
         ctx.skip("git not available")
         return
+    t_ = time.time()
     recs = histories(ctx, True)
+    ctx.notes.setdefault("phase_s", {})["histories"] = round(time.time() - t_, 1)
     for rec in recs:
         if rec.get("skipped"):
             ctx.skip("history %s: %s" % (rec["hseed"], rec["skipped"]))
@@ -1375,9 +1397,14 @@ def oracle(ctx):
 
 
 def correspond(ctx):
+    t_ = time.time()
     direct_streams(ctx)
+    ctx.notes.setdefault("phase_s", {})["pure_streams"] = round(time.time() - t_, 1)
     recs = histories(ctx, True)
+    t_ = time.time()
     direct_git(ctx)
+    ctx.notes["phase_s"]["direct_git"] = round(time.time() - t_, 1)
+    t_ = time.time()
     reqs, spans = [], []
     for rec in recs:
         if rec.get("skipped"):
@@ -1395,6 +1422,7 @@ def correspond(ctx):
                          {"kind": "history", "hseed": rec["hseed"], "nevents": rec["nevents"]}, c, "contract")
         ctx.count("git_commands_checked", "in histories", rec.get("ncmds", 0))
         ctx.trace_validated(rec.get("ncmds", 0))
+    ctx.notes["phase_s"]["model_compare"] = round(time.time() - t_, 1)
 
 
 def replay(ctx, case):
@@ -1568,11 +1596,11 @@ def direct_streams(ctx):
 
 def direct_git(ctx):
     """GitScm.switch / invoke / status on real clones"""
-    n = int(os.environ.get("C12_NGIT", 0)) or ctx.scale(96, 4000)
-    jobs = [(os.path.join(ctx.tmp, "g%d" % i), os.path.join(ctx.repo, "pym"), "C12g-%d-%s-%d" % (ctx.seed, ctx.tier, i)) for i in range(n)]
-    results = []
-    for i in range(0, len(jobs), 8):
-        if ctx.time_left() < 35 and i > 0:
+    jobs = git_jobs(ctx)
+    histories(ctx, True)
+    results = list(_CACHE.get(("git", ctx.seed, ctx.tier), []))
+    for i in range(len(results), len(jobs), 8):
+        if ctx.time_left() < 35:
             ctx.skip("direct git cases %d.. not run: time budget" % i)
             break
         results.extend(ctx.parallel(direct_git_case, jobs[i:i + 8], workers=8))
